@@ -45,6 +45,7 @@ TRAIT_SOURCES = [
         'static _Bool tk_compare_trivial_key(kcell_t* key_cell_p, kkey_t key, hash_t hash)', post_subst=ref_params('key_cell'), must_fire={'A_LOAD': 1}),
   trait('tk_compare_nontrivial_key', r'static bool compare_nontrivial_key\(', 0,
         'static _Bool tk_compare_nontrivial_key(const struct t_accessor* acc_p, kkey_t key)', must_fire={}),
+  trait('tk_reset', r'static void reset\(accessor&&\)', 0, 'static void tk_reset(struct t_accessor* acc_p)', must_fire={}),
   trait('tk_rehash', r'static hash_t rehash\(', 0, 'static hash_t tk_rehash(kkey_t k)',
         subst=[(r'\bHash\{\}\((\w+)\)', r'XV_HASH(\1)', 'hash_call')], must_fire={'subst:hash_call': 1}),
   # ---- NONTRIVIAL: vyukov_hash_map_traits<Key, Value, ..., false, TrivialValue> (5th specialisation) + bits::vyukov_hash_map_nontrivial_key
@@ -73,6 +74,10 @@ TRAIT_SOURCES = [
   trait('nk_compare_nontrivial_key', r'static bool compare_nontrivial_key\(', 1,
         'static _Bool nk_compare_nontrivial_key(const struct n_accessor* acc_p, kkey_t key)', methods={'key': 'NK_ACC_key'},
         post_subst=ref_params('acc'), must_fire={'method:key': 1}),
+  trait('nk_acc_reset', r'void reset\(\)', 3, 'static void nk_acc_reset(struct n_accessor* self)', members=['guard'],
+        methods={'reset': 'GP_reset'}, must_fire={'method:reset': 1, 'member:guard': 1}),
+  trait('nk_reset', r'static void reset\(Accessor&& acc\)', 0, 'static void nk_reset(struct n_accessor* acc_p)', methods={'reset': 'NK_ACC_reset'},
+        post_subst=ref_params('acc'), must_fire={'method:reset': 1}),
   trait('nk_rehash', r'static hash_t rehash\(', 1, 'static hash_t nk_rehash(hash_t h)', must_fire={}),
 ]
 
@@ -141,7 +146,7 @@ MAP_SOURCES = [
   mapf('extract', r'bool vyukov_hash_map<Key, Value, Policies...>::extract\(const key_type& key, accessor& acc\)',
        'static _Bool vhm_extract(struct vhm* self, kkey_t key, accessor* acc_p)',
        self_calls={'do_extract': 'vhm_do_extract'}, may_throw=['vhm_do_extract'], post_subst=ref_params('acc'),
-       must_fire={'self_call:do_extract': 1, 'subst:traits_call': 1, 'may_throw:vhm_do_extract': 1}),
+       must_fire={'self_call:do_extract': 1, 'may_throw:vhm_do_extract': 1}),
   mapf('do_get_or_emplace', r'bool vyukov_hash_map<Key, Value, Policies...>::do_get_or_emplace\(Key&& key, Factory&& factory, Callback&& callback\)',
        'static _Bool vhm_do_get_or_emplace(struct vhm* self, _Bool AcquireAccessor, kkey_t key)',
        subst=[(r'\baccessor acc;', 'accessor acc = XV_ACC_ANY;', 'acc_decl'), (r'\bretry:', 'retry: ;', 'label'), (r'\bgoto retry;', 'XV_GOTO_RETRY;', 'goto_retry')],
@@ -150,6 +155,28 @@ MAP_SOURCES = [
        must_fire={'subst:unlocker_decl': 1, 'subst:goto_retry': 1, 'try_catch': 1, 'rethrow': 1, 'hoist_arg:XV_FACTORY': 2, 'throw_check:TR_store_item': 2,
                   'throw_check:vhm_grow': 1, 'hoist_cond:TR_compare_key': 2, 'call:callback': 4, 'method:unlock': 4, 'method:disable': 1}),
 ]
+
+def uw(L, **loops):
+    """global bound for the harness/spec loops (NN + 2), exact bounds for the loops of the functions under contract"""
+    d = dict(unwind=NSLOT + L + 1 + 2, unwindset=['%s:%d' % (k.replace('__', '.'), v) for k, v in loops.items()])
+    return d
+NSLOT = 3
+def w_run(id, entry, L, nt, tiers, fn_loops, **kw):
+    defs = {'XV_L': L}
+    if nt: defs['XV_NT'] = 1
+    defs.update(kw.pop('defs', {}))
+    return dict(uw(L, **fn_loops), id=id, entry=entry, defs=defs, tiers=tiers, cls='shape-complete',
+                note='bucket array 3 slots (from the header), extension chain <= %d, pool %d, %s storage' % (L, 4, 'NONTRIVIAL' if nt else 'TRIVIAL'), **kw)
+def ex_loops(L): return {'vhm_do_extract_real__0': 1, 'vhm_do_extract_real__1': 1, 'vhm_do_extract_real__2': 4, 'vhm_do_extract_real__3': L + 2}
+def em_loops(L): return {'vhm_do_get_or_emplace__0': 4, 'vhm_do_get_or_emplace__1': L + 2, 'vhm_lock_bucket_real__0': 1}
+RUNS = []
+for L, tiers in ((1, ['quick']), (2, ['thorough']), (3, ['thorough'])):
+    for nt in (0, 1):
+        sfx = ('n' if nt else 't') + str(L)
+        RUNS.append(w_run('do_extract_' + sfx, 'h_do_extract', L, nt, tiers, ex_loops(L)))
+        RUNS.append(w_run('erase_' + sfx, 'h_erase', L, nt, tiers, ex_loops(L)))
+        RUNS.append(w_run('extract_' + sfx, 'h_extract', L, nt, tiers, ex_loops(L)))
+        RUNS.append(w_run('emplace_' + sfx, 'h_emplace', L, nt, tiers, em_loops(L)))
 
 UNIT = dict(
   title='vyukov_hash_map: per-bucket map refinement of emplace/extract/erase, extension items, grow, lock-free reader (C10)',
@@ -163,13 +190,13 @@ UNIT = dict(
   consts=BS_CONSTS + [dict(name='XV_UNLOCKER_ENABLED_DEFAULT', file=IMPL, regex=r'bool enabled = (\w+);'),
                       dict(name='XV_HDR_EXTENSION_ITEM_COUNT', file=HDR, regex=r'static constexpr std::uint32_t extension_item_count = ([^;]+);')],
   sources=BS_SOURCES + TRAIT_SOURCES + MAP_SOURCES,
-  runs=[
-    dict(id='extract_t', entry='h_do_extract', unwind=8, cls='shape-complete'),
-    dict(id='extract_n', entry='h_do_extract', unwind=8, defs={'XV_NT': 1}, cls='shape-complete'),
-  ],
+  runs=RUNS,
   obligations={
     'vhm.extract.iff_present': dict(deciding=True, text='do_extract/extract/erase return true iff the key was in the bucket; then the key is absent afterwards, the accessor carries the value that was stored, every other key keeps its value, Inv_B holds'),
     'vhm.extract.pool': dict(deciding=True, text='a removal returns exactly the unlinked extension item to the free list of its own extension bucket; all other pool items stay where they were'),
+    'vhm.emplace.iff_absent': dict(deciding=True, text='do_get_or_emplace returns true iff the key was absent; then the key maps to the value the factory produced (called exactly once), every other key keeps its value, Inv_B holds and the callback gets an accessor to the new element; otherwise nothing changes and the callback gets the existing element; an exception leaves the map unchanged'),
+    'vhm.emplace.pool': dict(deciding=True, text='an insertion consumes exactly one free extension item iff the bucket array is full; on an exception the item is back in its free list'),
+    'vhm.emplace.retry_state': dict(deciding=True, text='when no extension item is free the operation calls grow once with the locked bucket and its state, has changed nothing, and does not write the old bucket after grow released it (unlocker disabled) before retrying'),
     'vhm.erase.retires_only_removed': dict(deciding=True, text='erase/extract retire a heap node iff they removed an item, and then exactly the node of the removed item, once; a guard is never reclaimed empty'),
     'vhm.ops.unlock': dict(deciding=True, text='every exit (exceptional ones included) leaves the bucket lock clear and the lock is released exactly once'),
     'vhm.ops.frame': dict(deciding=True, text='an operation that does not find/insert its key changes nothing; no operation touches another bucket'),
